@@ -122,7 +122,10 @@ def handle (stream : String) (args : List String) : String :=
   | "race", args => handleRace args
   | "writers", sites => " ".intercalate (sites.map fun s =>
       match s.splitOn "=" with
-      | [f, n] => if RtcModel.Latch.modelledWriters f = n.toNat? then s!"{f}=ok" else s!"{f}=UNMODELLED-WRITER"
+      | [f, n] =>
+        match f.splitOn "#" with
+        | [file, "new"] => if RtcModel.Latch.modelledCreators file = n.toNat? then s!"{f}=ok" else s!"{f}=UNMODELLED-CONSTRUCTION-SITE"
+        | _ => if RtcModel.Latch.modelledWriters f = n.toNat? then s!"{f}=ok" else s!"{f}=UNMODELLED-WRITER"
       | _ => "bad-site")
   | _, _ => "bad-stream"
 
